@@ -225,6 +225,43 @@ func runC19(c *h.Ctx) {
 			}
 		}
 	}
+	// 3c. the encoder writes only the bytes it reports as appended: spare capacity behind the result keeps its contents
+	// (in-place framing: payload already behind the length prefix), and what it returns is nobody else's memory (a
+	// result edited in place does not change what later calls return)
+	for _, v := range varintValues(c) {
+		if v > quicwire.MaxVarint {
+			continue
+		}
+		for _, pl := range []int{0, 1, 5} {
+			for _, spare := range []int{1, 2, 7, 8, 9, 16, 64} {
+				buf := withSpare(rnd(c, pl), spare)
+				var out []byte
+				if pan, _ := h.Protect(func() { out = quicwire.AppendVarint(buf, v) }); pan {
+					continue
+				}
+				c.Count("enc:spare-capacity-kept", 1, fmt.Sprint(v, pl, spare))
+				if len(out) <= cap(buf) { // the result fits: append works in place, buf's backing array is the result's
+					full := buf[:cap(buf)]
+					for i := len(out); i < len(full); i++ {
+						if full[i] != 0xa5 {
+							c.Violation("the encoder writes only the bytes it reports as appended (spare capacity behind the result is left alone)", map[string]any{"v": v, "prefix_len": pl, "spare": spare, "offset": i})
+							break
+						}
+					}
+				}
+			}
+		}
+		first := quicwire.AppendVarint(nil, v)
+		want := append([]byte{}, first...)
+		for i := range first {
+			first[i] ^= 0xff
+		}
+		again := quicwire.AppendVarint(nil, v)
+		again2 := quicwire.AppendVarint([]byte{}, v)
+		if !bytes.Equal(again, want) || !bytes.Equal(again2, want) {
+			c.Violation("the encoding of a value does not depend on what a caller did to an earlier result", map[string]any{"v": v, "want": h.Hex(want), "got": h.Hex(again)})
+		}
+	}
 	// 4. fixed-width integers ----------------------------------------------------------------------
 	for l := 0; l <= 10; l++ {
 		for i := 0; i < 6; i++ {
